@@ -6,6 +6,7 @@ import RR.Model.HdlcDriver
 import RR.Model.BlockDriver
 import RR.Model.SchedDriver
 import RR.Model.ConcDriver
+import RR.Model.DspDriver
 
 /-! `rrdriver`: one request per line on stdin, one answer per line on stdout.
 A request is `<model> <args>`; the answer is the model's observable output. -/
@@ -26,6 +27,7 @@ def dispatch (line : String) : String :=
   | "codec" :: rest => CodecDriver.handleCodec (" ".intercalate rest)
   | "reasm" :: rest => CodecDriver.handleReasm (" ".intercalate rest)
   | "sigmf" :: rest => CodecDriver.handleSigmf (" ".intercalate rest)
+  | "dsp" :: rest => DspDriver.handle (" ".intercalate rest)
   | "wait" :: rest => WaitDriver.handle (" ".intercalate rest)
   | _ => "bad-model"
 
